@@ -164,6 +164,16 @@ def identity_rule(ctx: Ctx, res: Result, RID: str):
             res.ok(RID, {"statistics created in": sf.qname})
         else:
             res.fail(Finding(RID, sf.qname, paths.stmt_of(p, v), sf.loc(v), "the fire statistics of an installed action are replaced outside its constructor: its count/period state starts again"))
+    # one set of counters per installed action, whatever thread hits it: none of the stateful classes keeps its fields per
+    # thread (a `threading.local` subclass runs __init__ again in every thread: each thread counts from zero)
+    for q in STATEFUL:
+        c_ = p.cls(q)
+        tl = [b for k_ in c_.mro for b in k_.ext_bases if b.endswith("threading.local") or b in ("local", "_thread._local")]
+        if tl:
+            res.fail(Finding(RID, q, "class %s(%s)" % (c_.name, ", ".join(norm(b) for b in c_.base_exprs)), c_.module.relpath,
+                             "%s keeps its fields per thread (%s): fire_count / fire_period are counted separately in every thread that reaches the tracepoint" % (c_.name, tl[0])))
+        else:
+            res.ok(RID, {"%s state is per object, not per thread" % c_.name: True})
     st = p.cls(STATS)
     for (cq, attr), lst in sorted(t._attr_store_index().items()):
         if cq != STATS:
